@@ -15,6 +15,9 @@ import Poulpy.Lemmas.KsCompose
 import Poulpy.Lemmas.KsDecrypt
 import Poulpy.Lemmas.PackLoops
 import Poulpy.Lemmas.ExpandExec
+import Poulpy.Lemmas.AutoDecrypt
+import Poulpy.Lemmas.LweDecrypt
+import Poulpy.Lemmas.NoisyTrace
 import Poulpy.Model.Core.Pack
 import Poulpy.Props.C09
 
@@ -1409,5 +1412,395 @@ theorem ggsw_automorphism_assign_cells_value (N : Nat) (big128 : Bool) (x0 : Ct)
 example : Core.expandPre 1 4 3 (mkCt 4 1 [[[3], [1], [0]], [[2], [1], [0]]]).cols Ks.exT' = some ([[3], [1], [0]], [[[2], [1], [0]]]) := by
   decide
 end ExpandExecSec
+
+section AutoDecryptSec
+open KsDec Hal Core Core.Ops C02L AutoMul
+variable {M : Type*} [AddCommGroup M]
+
+/-- **`glwe_automorphism_decrypts`** — END TO END (conversion, product, normalisation, then `vec_znx_automorphism(p)` — exact on the result's digits): the result decrypts under `sk` to `σ_p` of (the input's phase under `sk` + the key-switch error of `glwe_keyswitch_decrypts`), the error bound survives `σ_p` (`‖σ_p e‖_∞ ≤ ‖e‖_∞`); the key switches from `sk` to `σ_{p⁻¹}(sk)` (`hinv` = `autokey_secret_roundtrip`) -/
+theorem glwe_automorphism_decrypts (big128 : Bool) (N bout sout rout : Nat) (a : Ks.Ct) (key : Ks.Key) (sk : List Poly) (gInv : Int)
+    (EL KL : ℕ → ℕ → Poly) (Hin Hp : Int)
+    (hN : 0 < N) (hg : GalOk key.p N) (hsk : Ks.AllLen N sk) (hinv : ∀ s ∈ sk, σ key.p (σ gInv s) = s)
+    (ha : GWF N a) (hrank : a.rank = key.rankIn) (hrout : rout = key.rankOut) (hc0 : 0 < key.mat.colsOut)
+    (hD : 1 ≤ key.dsize) (hM : ∀ j q, (key.mat.entry j q).length = N) (hS : key.mat.rows * key.dsize ≤ key.mat.size)
+    (hbi1 : 1 ≤ a.base2k) (hbi : a.base2k ≤ 62) (hbk1 : 1 ≤ key.base2k) (hbk : key.base2k ≤ 62) (hbo1 : 1 ≤ bout) (hbo : bout ≤ 62)
+    (hIn0 : 0 ≤ Hin) (hIn : Hin + 8 ≤ 2 ^ 62) (hInB : ∀ c ∈ a.cols, ∀ l ∈ c, ∀ x ∈ l, |x| ≤ Hin)
+    (hHp0 : 0 ≤ Hp) (hAcc : Hp + (Hin + 2 ^ key.base2k) + 8 ≤ 2 ^ (bitsOf big128 - 2))
+    (hprod : ∀ aConv, Ks.convIn a key = .ok aConv → ∀ i, i < rout + 1 → ∀ l ∈ (prodOf rout aConv key).act i, ∀ x ∈ l, |x| ≤ Hp)
+    (hs : key.mat.colsIn ≤ sk.length)
+    (hEL : ∀ i r, (EL i r).length = N) (hKL : ∀ i r, (KL i r).length = N)
+    (hkey : ∀ i, i < key.mat.colsIn → ∀ r, r < key.mat.rows →
+      Gadget.val (Ks.radix N key.base2k) key.mat.size (Ks.keyPhase N (sk.map (σ gInv)) key.mat i r) =
+        Ks.ι N (sk.getD i []) * Ks.radix N key.base2k ^ (key.mat.size - (r + 1) * key.dsize) + Ks.ι N (EL i r)
+          + Ks.radix N key.base2k ^ key.mat.size * Ks.ι N (KL i r))
+    (hcov1 : convSize a key ≤ key.mat.size) (hcov2 : convSize a key ≤ key.mat.rows * key.dsize) :
+    ∃ res aConv, Ks.automorphism big128 bout sout rout a key = .ok res ∧ Ks.convIn a key = .ok aConv ∧
+      GWF N res ∧ res.base2k = bout ∧ res.size = sout ∧ res.rank = rout ∧
+      ∃ (E1 E3 : Poly) (Q : Ks.R N), E1.length = N ∧ E3.length = N ∧
+        normInf E1 ≤ (1 + snorm (min a.rank sk.length) sk) * C02.normTol (key.base2k * convSize a key) (a.base2k * a.size) ∧
+        normInf E3 ≤ (1 + snorm (min rout (sk.map (σ gInv)).length) (sk.map (σ gInv))) *
+          C02.normTol (bout * sout) (key.base2k * key.mat.size) ∧
+        (2 : Ks.R N) ^ (a.base2k * a.size + key.base2k * key.mat.size) * Ks.ι N (valP bout N (phase sk res))
+          = (2 : Ks.R N) ^ (bout * sout + key.base2k * key.mat.size) * Ks.ι N (σ key.p (valP a.base2k N (phase sk a)))
+            + Ks.ι N (σ key.p (ksErr (2 ^ (bout * sout + key.base2k * (key.mat.size - convSize a key))) (2 ^ (a.base2k * a.size + bout * sout))
+                (2 ^ (a.base2k * a.size)) E1 (Ks.errL N key.base2k (aDftOf aConv) key EL)
+                (Ks.dropL N key.base2k (sk.map (σ gInv)) (aDftOf aConv) key) E3))
+            + (2 : Ks.R N) ^ (a.base2k * a.size + bout * sout + key.base2k * key.mat.size) * Q ∧
+        normInf (σ key.p (ksErr (2 ^ (bout * sout + key.base2k * (key.mat.size - convSize a key))) (2 ^ (a.base2k * a.size + bout * sout))
+                (2 ^ (a.base2k * a.size)) E1 (Ks.errL N key.base2k (aDftOf aConv) key EL)
+                (Ks.dropL N key.base2k (sk.map (σ gInv)) (aDftOf aConv) key) E3))
+          ≤ 2 ^ (bout * sout + key.base2k * (key.mat.size - convSize a key)) *
+              ((1 + snorm (min a.rank sk.length) sk) * C02.normTol (key.base2k * convSize a key) (a.base2k * a.size))
+            + 2 ^ (a.base2k * a.size + bout * sout) * gadgetBound N key.base2k (aDftOf aConv) key EL
+            + 2 ^ (a.base2k * a.size + bout * sout) * dropBound N key.base2k (sk.map (σ gInv)) (aDftOf aConv) key
+            + 2 ^ (a.base2k * a.size) *
+              ((1 + snorm (min rout (sk.map (σ gInv)).length) (sk.map (σ gInv))) *
+                C02.normTol (bout * sout) (key.base2k * key.mat.size)) :=
+  KsDec.glwe_automorphism_decrypts big128 N bout sout rout a key sk gInv EL KL Hin Hp hN hg hsk hinv ha hrank hrout hc0 hD hM hS hbi1 hbi hbk1 hbk hbo1 hbo hIn0 hIn hInB hHp0 hAcc hprod hs hEL hKL hkey hcov1 hcov2
+
+/-- in-place form -/
+theorem glwe_automorphism_assign_decrypts (big128 : Bool) (N : Nat) (a : Ks.Ct) (key : Ks.Key) (sk : List Poly) (gInv : Int)
+    (EL KL : ℕ → ℕ → Poly) (Hin Hp : Int)
+    (hN : 0 < N) (hg : GalOk key.p N) (hsk : Ks.AllLen N sk) (hinv : ∀ s ∈ sk, σ key.p (σ gInv s) = s)
+    (ha : GWF N a) (hrank : a.rank = key.rankIn) (hrout : a.rank = key.rankOut) (hc0 : 0 < key.mat.colsOut)
+    (hD : 1 ≤ key.dsize) (hM : ∀ j q, (key.mat.entry j q).length = N) (hS : key.mat.rows * key.dsize ≤ key.mat.size)
+    (hbi1 : 1 ≤ a.base2k) (hbi : a.base2k ≤ 62) (hbk1 : 1 ≤ key.base2k) (hbk : key.base2k ≤ 62)
+    (hIn0 : 0 ≤ Hin) (hIn : Hin + 8 ≤ 2 ^ 62) (hInB : ∀ c ∈ a.cols, ∀ l ∈ c, ∀ x ∈ l, |x| ≤ Hin)
+    (hHp0 : 0 ≤ Hp) (hAcc : Hp + (Hin + 2 ^ key.base2k) + 8 ≤ 2 ^ (bitsOf big128 - 2))
+    (hprod : ∀ aConv, Ks.convIn a key = .ok aConv → ∀ i, i < a.rank + 1 → ∀ l ∈ (prodOf a.rank aConv key).act i, ∀ x ∈ l, |x| ≤ Hp)
+    (hs : key.mat.colsIn ≤ sk.length)
+    (hEL : ∀ i r, (EL i r).length = N) (hKL : ∀ i r, (KL i r).length = N)
+    (hkey : ∀ i, i < key.mat.colsIn → ∀ r, r < key.mat.rows →
+      Gadget.val (Ks.radix N key.base2k) key.mat.size (Ks.keyPhase N (sk.map (σ gInv)) key.mat i r) =
+        Ks.ι N (sk.getD i []) * Ks.radix N key.base2k ^ (key.mat.size - (r + 1) * key.dsize) + Ks.ι N (EL i r)
+          + Ks.radix N key.base2k ^ key.mat.size * Ks.ι N (KL i r))
+    (hcov1 : convSize a key ≤ key.mat.size) (hcov2 : convSize a key ≤ key.mat.rows * key.dsize) :
+    ∃ res aConv, Ks.automorphism big128 a.base2k a.size a.rank a key = .ok res ∧ Ks.convIn a key = .ok aConv ∧
+      GWF N res ∧ res.base2k = a.base2k ∧ res.size = a.size ∧ res.rank = a.rank ∧
+      ∃ (E1 E3 : Poly) (Q : Ks.R N), E1.length = N ∧ E3.length = N ∧
+        normInf E1 ≤ (1 + snorm (min a.rank sk.length) sk) * C02.normTol (key.base2k * convSize a key) (a.base2k * a.size) ∧
+        normInf E3 ≤ (1 + snorm (min a.rank (sk.map (σ gInv)).length) (sk.map (σ gInv))) *
+          C02.normTol (a.base2k * a.size) (key.base2k * key.mat.size) ∧
+        (2 : Ks.R N) ^ (a.base2k * a.size + key.base2k * key.mat.size) * Ks.ι N (valP a.base2k N (phase sk res))
+          = (2 : Ks.R N) ^ (a.base2k * a.size + key.base2k * key.mat.size) * Ks.ι N (σ key.p (valP a.base2k N (phase sk a)))
+            + Ks.ι N (σ key.p (ksErr (2 ^ (a.base2k * a.size + key.base2k * (key.mat.size - convSize a key))) (2 ^ (a.base2k * a.size + a.base2k * a.size))
+                (2 ^ (a.base2k * a.size)) E1 (Ks.errL N key.base2k (aDftOf aConv) key EL)
+                (Ks.dropL N key.base2k (sk.map (σ gInv)) (aDftOf aConv) key) E3))
+            + (2 : Ks.R N) ^ (a.base2k * a.size + a.base2k * a.size + key.base2k * key.mat.size) * Q ∧
+        normInf (σ key.p (ksErr (2 ^ (a.base2k * a.size + key.base2k * (key.mat.size - convSize a key))) (2 ^ (a.base2k * a.size + a.base2k * a.size))
+                (2 ^ (a.base2k * a.size)) E1 (Ks.errL N key.base2k (aDftOf aConv) key EL)
+                (Ks.dropL N key.base2k (sk.map (σ gInv)) (aDftOf aConv) key) E3))
+          ≤ 2 ^ (a.base2k * a.size + key.base2k * (key.mat.size - convSize a key)) *
+              ((1 + snorm (min a.rank sk.length) sk) * C02.normTol (key.base2k * convSize a key) (a.base2k * a.size))
+            + 2 ^ (a.base2k * a.size + a.base2k * a.size) * gadgetBound N key.base2k (aDftOf aConv) key EL
+            + 2 ^ (a.base2k * a.size + a.base2k * a.size) * dropBound N key.base2k (sk.map (σ gInv)) (aDftOf aConv) key
+            + 2 ^ (a.base2k * a.size) *
+              ((1 + snorm (min a.rank (sk.map (σ gInv)).length) (sk.map (σ gInv))) *
+                C02.normTol (a.base2k * a.size) (key.base2k * key.mat.size)) :=
+  KsDec.glwe_automorphism_assign_decrypts big128 N a key sk gInv EL KL Hin Hp hN hg hsk hinv ha hrank hrout hc0 hD hM hS hbi1 hbi hbk1 hbk hIn0 hIn hInB hHp0 hAcc hprod hs hEL hKL hkey hcov1 hcov2
+
+/-- **`glwe_automorphism_{add,sub,sub_negate}`** in one theorem (signs `sgA f`, `sgB f`): the result decrypts to `sgA·σ_p(φ + err_ks) + sgB·φ` + normalisation error, every shape, both accumulators, fresh (zeroed) `res_dft` -/
+theorem glwe_automorphism_fused_decrypts (f : Ks.Fused) (big128 : Bool) (N bout sout rout : Nat) (a : Ks.Ct) (key : Ks.Key)
+    (sk : List Poly) (gInv : Int) (EL KL : ℕ → ℕ → Poly) (Hin Hp : Int)
+    (hN : 0 < N) (hg : GalOk key.p N) (hsk : Ks.AllLen N sk) (hinv : ∀ s ∈ sk, σ key.p (σ gInv s) = s)
+    (ha : GWF N a) (hrank : a.rank = key.rankIn) (hrout : rout = key.rankOut) (hra : a.rank = rout) (hc0 : 0 < key.mat.colsOut)
+    (hD : 1 ≤ key.dsize) (hM : ∀ j q, (key.mat.entry j q).length = N) (hS : key.mat.rows * key.dsize ≤ key.mat.size)
+    (hbi1 : 1 ≤ a.base2k) (hbi : a.base2k ≤ 62) (hbk1 : 1 ≤ key.base2k) (hbk : key.base2k ≤ 62) (hbo1 : 1 ≤ bout) (hbo : bout ≤ 62)
+    (hIn0 : 0 ≤ Hin) (hIn : Hin + 8 ≤ 2 ^ 62) (hInB : ∀ c ∈ a.cols, ∀ l ∈ c, ∀ x ∈ l, |x| ≤ Hin)
+    (hHp0 : 0 ≤ Hp) (hAcc : Hp + 2 * (Hin + 2 ^ key.base2k) + 8 ≤ 2 ^ (bitsOf big128 - 2))
+    (hprod : ∀ aConv, Ks.convIn a key = .ok aConv → ∀ i, i < rout + 1 → ∀ l ∈ (prodOf rout aConv key).act i, ∀ x ∈ l, |x| ≤ Hp)
+    (hs : key.mat.colsIn ≤ sk.length)
+    (hEL : ∀ i r, (EL i r).length = N) (hKL : ∀ i r, (KL i r).length = N)
+    (hkey : ∀ i, i < key.mat.colsIn → ∀ r, r < key.mat.rows →
+      Gadget.val (Ks.radix N key.base2k) key.mat.size (Ks.keyPhase N (sk.map (σ gInv)) key.mat i r) =
+        Ks.ι N (sk.getD i []) * Ks.radix N key.base2k ^ (key.mat.size - (r + 1) * key.dsize) + Ks.ι N (EL i r)
+          + Ks.radix N key.base2k ^ key.mat.size * Ks.ι N (KL i r))
+    (hcov1 : convSize a key ≤ key.mat.size) (hcov2 : convSize a key ≤ key.mat.rows * key.dsize) :
+    ∃ res aConv, Ks.automorphismFused f big128 (Ks.zeroBuf N (rout + 1) key.size) bout sout rout a key = .ok res ∧
+      Ks.convIn a key = .ok aConv ∧ GWF N res ∧ res.base2k = bout ∧ res.size = sout ∧ res.rank = rout ∧
+      ∃ (E1 E3 : Poly) (Q : Ks.R N), E1.length = N ∧ E3.length = N ∧
+        normInf E1 ≤ (1 + snorm (min a.rank sk.length) sk) * C02.normTol (key.base2k * convSize a key) (a.base2k * a.size) ∧
+        normInf E3 ≤ (1 + snorm (min rout sk.length) sk) * C02.normTol (bout * sout) (key.base2k * key.mat.size) ∧
+        (2 : Ks.R N) ^ (a.base2k * a.size + key.base2k * key.mat.size) * Ks.ι N (valP bout N (phase sk res))
+          = (sgA f : Ks.R N) *
+              ((2 : Ks.R N) ^ (bout * sout + key.base2k * key.mat.size) * Ks.ι N (σ key.p (valP a.base2k N (phase sk a)))
+                + Ks.ι N (σ key.p (ksErr (2 ^ (bout * sout + key.base2k * (key.mat.size - convSize a key)))
+                    (2 ^ (a.base2k * a.size + bout * sout)) 0 E1 (Ks.errL N key.base2k (aDftOf aConv) key EL)
+                    (Ks.dropL N key.base2k (sk.map (σ gInv)) (aDftOf aConv) key) (zeroP N))))
+            + (sgB f : Ks.R N) *
+              ((2 : Ks.R N) ^ (bout * sout + key.base2k * key.mat.size) * Ks.ι N (valP a.base2k N (phase sk a))
+                + Ks.ι N (polyScale (2 ^ (bout * sout + key.base2k * (key.mat.size - convSize a key))) E1))
+            + Ks.ι N (polyScale (2 ^ (a.base2k * a.size)) E3)
+            + (2 : Ks.R N) ^ (a.base2k * a.size + bout * sout + key.base2k * key.mat.size) * Q ∧
+        normInf (σ key.p (ksErr (2 ^ (bout * sout + key.base2k * (key.mat.size - convSize a key)))
+                    (2 ^ (a.base2k * a.size + bout * sout)) 0 E1 (Ks.errL N key.base2k (aDftOf aConv) key EL)
+                    (Ks.dropL N key.base2k (sk.map (σ gInv)) (aDftOf aConv) key) (zeroP N)))
+          ≤ 2 ^ (bout * sout + key.base2k * (key.mat.size - convSize a key)) *
+              ((1 + snorm (min a.rank sk.length) sk) * C02.normTol (key.base2k * convSize a key) (a.base2k * a.size))
+            + 2 ^ (a.base2k * a.size + bout * sout) * gadgetBound N key.base2k (aDftOf aConv) key EL
+            + 2 ^ (a.base2k * a.size + bout * sout) * dropBound N key.base2k (sk.map (σ gInv)) (aDftOf aConv) key :=
+  KsDec.glwe_automorphism_fused_decrypts f big128 N bout sout rout a key sk gInv EL KL Hin Hp hN hg hsk hinv ha hrank hrout hra hc0 hD hM hS hbi1 hbi hbk1 hbk hbo1 hbo hIn0 hIn hInB hHp0 hAcc hprod hs hEL hKL hkey hcov1 hcov2
+
+/-- `σ_p(KS(a)) + a` -/
+theorem glwe_automorphism_add_decrypts (big128 : Bool) (N bout sout rout : Nat) (a : Ks.Ct) (key : Ks.Key)
+    (sk : List Poly) (gInv : Int) (EL KL : ℕ → ℕ → Poly) (Hin Hp : Int)
+    (hN : 0 < N) (hg : GalOk key.p N) (hsk : Ks.AllLen N sk) (hinv : ∀ s ∈ sk, σ key.p (σ gInv s) = s)
+    (ha : GWF N a) (hrank : a.rank = key.rankIn) (hrout : rout = key.rankOut) (hra : a.rank = rout) (hc0 : 0 < key.mat.colsOut)
+    (hD : 1 ≤ key.dsize) (hM : ∀ j q, (key.mat.entry j q).length = N) (hS : key.mat.rows * key.dsize ≤ key.mat.size)
+    (hbi1 : 1 ≤ a.base2k) (hbi : a.base2k ≤ 62) (hbk1 : 1 ≤ key.base2k) (hbk : key.base2k ≤ 62) (hbo1 : 1 ≤ bout) (hbo : bout ≤ 62)
+    (hIn0 : 0 ≤ Hin) (hIn : Hin + 8 ≤ 2 ^ 62) (hInB : ∀ c ∈ a.cols, ∀ l ∈ c, ∀ x ∈ l, |x| ≤ Hin)
+    (hHp0 : 0 ≤ Hp) (hAcc : Hp + 2 * (Hin + 2 ^ key.base2k) + 8 ≤ 2 ^ (bitsOf big128 - 2))
+    (hprod : ∀ aConv, Ks.convIn a key = .ok aConv → ∀ i, i < rout + 1 → ∀ l ∈ (prodOf rout aConv key).act i, ∀ x ∈ l, |x| ≤ Hp)
+    (hs : key.mat.colsIn ≤ sk.length)
+    (hEL : ∀ i r, (EL i r).length = N) (hKL : ∀ i r, (KL i r).length = N)
+    (hkey : ∀ i, i < key.mat.colsIn → ∀ r, r < key.mat.rows →
+      Gadget.val (Ks.radix N key.base2k) key.mat.size (Ks.keyPhase N (sk.map (σ gInv)) key.mat i r) =
+        Ks.ι N (sk.getD i []) * Ks.radix N key.base2k ^ (key.mat.size - (r + 1) * key.dsize) + Ks.ι N (EL i r)
+          + Ks.radix N key.base2k ^ key.mat.size * Ks.ι N (KL i r))
+    (hcov1 : convSize a key ≤ key.mat.size) (hcov2 : convSize a key ≤ key.mat.rows * key.dsize) :
+    ∃ res aConv, Ks.automorphismFused .add big128 (Ks.zeroBuf N (rout + 1) key.size) bout sout rout a key = .ok res ∧
+      Ks.convIn a key = .ok aConv ∧ GWF N res ∧ res.base2k = bout ∧ res.size = sout ∧ res.rank = rout ∧
+      ∃ (E1 E3 : Poly) (Q : Ks.R N), E1.length = N ∧ E3.length = N ∧
+        normInf E1 ≤ (1 + snorm (min a.rank sk.length) sk) * C02.normTol (key.base2k * convSize a key) (a.base2k * a.size) ∧
+        normInf E3 ≤ (1 + snorm (min rout sk.length) sk) * C02.normTol (bout * sout) (key.base2k * key.mat.size) ∧
+        (2 : Ks.R N) ^ (a.base2k * a.size + key.base2k * key.mat.size) * Ks.ι N (valP bout N (phase sk res))
+          = ((sgA .add : ℤ) : Ks.R N) *
+              ((2 : Ks.R N) ^ (bout * sout + key.base2k * key.mat.size) * Ks.ι N (σ key.p (valP a.base2k N (phase sk a)))
+                + Ks.ι N (σ key.p (ksErr (2 ^ (bout * sout + key.base2k * (key.mat.size - convSize a key)))
+                    (2 ^ (a.base2k * a.size + bout * sout)) 0 E1 (Ks.errL N key.base2k (aDftOf aConv) key EL)
+                    (Ks.dropL N key.base2k (sk.map (σ gInv)) (aDftOf aConv) key) (zeroP N))))
+            + ((sgB .add : ℤ) : Ks.R N) *
+              ((2 : Ks.R N) ^ (bout * sout + key.base2k * key.mat.size) * Ks.ι N (valP a.base2k N (phase sk a))
+                + Ks.ι N (polyScale (2 ^ (bout * sout + key.base2k * (key.mat.size - convSize a key))) E1))
+            + Ks.ι N (polyScale (2 ^ (a.base2k * a.size)) E3)
+            + (2 : Ks.R N) ^ (a.base2k * a.size + bout * sout + key.base2k * key.mat.size) * Q ∧
+        normInf (σ key.p (ksErr (2 ^ (bout * sout + key.base2k * (key.mat.size - convSize a key)))
+                    (2 ^ (a.base2k * a.size + bout * sout)) 0 E1 (Ks.errL N key.base2k (aDftOf aConv) key EL)
+                    (Ks.dropL N key.base2k (sk.map (σ gInv)) (aDftOf aConv) key) (zeroP N)))
+          ≤ 2 ^ (bout * sout + key.base2k * (key.mat.size - convSize a key)) *
+              ((1 + snorm (min a.rank sk.length) sk) * C02.normTol (key.base2k * convSize a key) (a.base2k * a.size))
+            + 2 ^ (a.base2k * a.size + bout * sout) * gadgetBound N key.base2k (aDftOf aConv) key EL
+            + 2 ^ (a.base2k * a.size + bout * sout) * dropBound N key.base2k (sk.map (σ gInv)) (aDftOf aConv) key :=
+  KsDec.glwe_automorphism_add_decrypts big128 N bout sout rout a key sk gInv EL KL Hin Hp hN hg hsk hinv ha hrank hrout hra hc0 hD hM hS hbi1 hbi hbk1 hbk hbo1 hbo hIn0 hIn hInB hHp0 hAcc hprod hs hEL hKL hkey hcov1 hcov2
+
+/-- `σ_p(KS(a)) − a` -/
+theorem glwe_automorphism_sub_decrypts (big128 : Bool) (N bout sout rout : Nat) (a : Ks.Ct) (key : Ks.Key)
+    (sk : List Poly) (gInv : Int) (EL KL : ℕ → ℕ → Poly) (Hin Hp : Int)
+    (hN : 0 < N) (hg : GalOk key.p N) (hsk : Ks.AllLen N sk) (hinv : ∀ s ∈ sk, σ key.p (σ gInv s) = s)
+    (ha : GWF N a) (hrank : a.rank = key.rankIn) (hrout : rout = key.rankOut) (hra : a.rank = rout) (hc0 : 0 < key.mat.colsOut)
+    (hD : 1 ≤ key.dsize) (hM : ∀ j q, (key.mat.entry j q).length = N) (hS : key.mat.rows * key.dsize ≤ key.mat.size)
+    (hbi1 : 1 ≤ a.base2k) (hbi : a.base2k ≤ 62) (hbk1 : 1 ≤ key.base2k) (hbk : key.base2k ≤ 62) (hbo1 : 1 ≤ bout) (hbo : bout ≤ 62)
+    (hIn0 : 0 ≤ Hin) (hIn : Hin + 8 ≤ 2 ^ 62) (hInB : ∀ c ∈ a.cols, ∀ l ∈ c, ∀ x ∈ l, |x| ≤ Hin)
+    (hHp0 : 0 ≤ Hp) (hAcc : Hp + 2 * (Hin + 2 ^ key.base2k) + 8 ≤ 2 ^ (bitsOf big128 - 2))
+    (hprod : ∀ aConv, Ks.convIn a key = .ok aConv → ∀ i, i < rout + 1 → ∀ l ∈ (prodOf rout aConv key).act i, ∀ x ∈ l, |x| ≤ Hp)
+    (hs : key.mat.colsIn ≤ sk.length)
+    (hEL : ∀ i r, (EL i r).length = N) (hKL : ∀ i r, (KL i r).length = N)
+    (hkey : ∀ i, i < key.mat.colsIn → ∀ r, r < key.mat.rows →
+      Gadget.val (Ks.radix N key.base2k) key.mat.size (Ks.keyPhase N (sk.map (σ gInv)) key.mat i r) =
+        Ks.ι N (sk.getD i []) * Ks.radix N key.base2k ^ (key.mat.size - (r + 1) * key.dsize) + Ks.ι N (EL i r)
+          + Ks.radix N key.base2k ^ key.mat.size * Ks.ι N (KL i r))
+    (hcov1 : convSize a key ≤ key.mat.size) (hcov2 : convSize a key ≤ key.mat.rows * key.dsize) :
+    ∃ res aConv, Ks.automorphismFused .sub big128 (Ks.zeroBuf N (rout + 1) key.size) bout sout rout a key = .ok res ∧
+      Ks.convIn a key = .ok aConv ∧ GWF N res ∧ res.base2k = bout ∧ res.size = sout ∧ res.rank = rout ∧
+      ∃ (E1 E3 : Poly) (Q : Ks.R N), E1.length = N ∧ E3.length = N ∧
+        normInf E1 ≤ (1 + snorm (min a.rank sk.length) sk) * C02.normTol (key.base2k * convSize a key) (a.base2k * a.size) ∧
+        normInf E3 ≤ (1 + snorm (min rout sk.length) sk) * C02.normTol (bout * sout) (key.base2k * key.mat.size) ∧
+        (2 : Ks.R N) ^ (a.base2k * a.size + key.base2k * key.mat.size) * Ks.ι N (valP bout N (phase sk res))
+          = ((sgA .sub : ℤ) : Ks.R N) *
+              ((2 : Ks.R N) ^ (bout * sout + key.base2k * key.mat.size) * Ks.ι N (σ key.p (valP a.base2k N (phase sk a)))
+                + Ks.ι N (σ key.p (ksErr (2 ^ (bout * sout + key.base2k * (key.mat.size - convSize a key)))
+                    (2 ^ (a.base2k * a.size + bout * sout)) 0 E1 (Ks.errL N key.base2k (aDftOf aConv) key EL)
+                    (Ks.dropL N key.base2k (sk.map (σ gInv)) (aDftOf aConv) key) (zeroP N))))
+            + ((sgB .sub : ℤ) : Ks.R N) *
+              ((2 : Ks.R N) ^ (bout * sout + key.base2k * key.mat.size) * Ks.ι N (valP a.base2k N (phase sk a))
+                + Ks.ι N (polyScale (2 ^ (bout * sout + key.base2k * (key.mat.size - convSize a key))) E1))
+            + Ks.ι N (polyScale (2 ^ (a.base2k * a.size)) E3)
+            + (2 : Ks.R N) ^ (a.base2k * a.size + bout * sout + key.base2k * key.mat.size) * Q ∧
+        normInf (σ key.p (ksErr (2 ^ (bout * sout + key.base2k * (key.mat.size - convSize a key)))
+                    (2 ^ (a.base2k * a.size + bout * sout)) 0 E1 (Ks.errL N key.base2k (aDftOf aConv) key EL)
+                    (Ks.dropL N key.base2k (sk.map (σ gInv)) (aDftOf aConv) key) (zeroP N)))
+          ≤ 2 ^ (bout * sout + key.base2k * (key.mat.size - convSize a key)) *
+              ((1 + snorm (min a.rank sk.length) sk) * C02.normTol (key.base2k * convSize a key) (a.base2k * a.size))
+            + 2 ^ (a.base2k * a.size + bout * sout) * gadgetBound N key.base2k (aDftOf aConv) key EL
+            + 2 ^ (a.base2k * a.size + bout * sout) * dropBound N key.base2k (sk.map (σ gInv)) (aDftOf aConv) key :=
+  KsDec.glwe_automorphism_sub_decrypts big128 N bout sout rout a key sk gInv EL KL Hin Hp hN hg hsk hinv ha hrank hrout hra hc0 hD hM hS hbi1 hbi hbk1 hbk hbo1 hbo hIn0 hIn hInB hHp0 hAcc hprod hs hEL hKL hkey hcov1 hcov2
+
+/-- `a − σ_p(KS(a))` -/
+theorem glwe_automorphism_sub_negate_decrypts (big128 : Bool) (N bout sout rout : Nat) (a : Ks.Ct) (key : Ks.Key)
+    (sk : List Poly) (gInv : Int) (EL KL : ℕ → ℕ → Poly) (Hin Hp : Int)
+    (hN : 0 < N) (hg : GalOk key.p N) (hsk : Ks.AllLen N sk) (hinv : ∀ s ∈ sk, σ key.p (σ gInv s) = s)
+    (ha : GWF N a) (hrank : a.rank = key.rankIn) (hrout : rout = key.rankOut) (hra : a.rank = rout) (hc0 : 0 < key.mat.colsOut)
+    (hD : 1 ≤ key.dsize) (hM : ∀ j q, (key.mat.entry j q).length = N) (hS : key.mat.rows * key.dsize ≤ key.mat.size)
+    (hbi1 : 1 ≤ a.base2k) (hbi : a.base2k ≤ 62) (hbk1 : 1 ≤ key.base2k) (hbk : key.base2k ≤ 62) (hbo1 : 1 ≤ bout) (hbo : bout ≤ 62)
+    (hIn0 : 0 ≤ Hin) (hIn : Hin + 8 ≤ 2 ^ 62) (hInB : ∀ c ∈ a.cols, ∀ l ∈ c, ∀ x ∈ l, |x| ≤ Hin)
+    (hHp0 : 0 ≤ Hp) (hAcc : Hp + 2 * (Hin + 2 ^ key.base2k) + 8 ≤ 2 ^ (bitsOf big128 - 2))
+    (hprod : ∀ aConv, Ks.convIn a key = .ok aConv → ∀ i, i < rout + 1 → ∀ l ∈ (prodOf rout aConv key).act i, ∀ x ∈ l, |x| ≤ Hp)
+    (hs : key.mat.colsIn ≤ sk.length)
+    (hEL : ∀ i r, (EL i r).length = N) (hKL : ∀ i r, (KL i r).length = N)
+    (hkey : ∀ i, i < key.mat.colsIn → ∀ r, r < key.mat.rows →
+      Gadget.val (Ks.radix N key.base2k) key.mat.size (Ks.keyPhase N (sk.map (σ gInv)) key.mat i r) =
+        Ks.ι N (sk.getD i []) * Ks.radix N key.base2k ^ (key.mat.size - (r + 1) * key.dsize) + Ks.ι N (EL i r)
+          + Ks.radix N key.base2k ^ key.mat.size * Ks.ι N (KL i r))
+    (hcov1 : convSize a key ≤ key.mat.size) (hcov2 : convSize a key ≤ key.mat.rows * key.dsize) :
+    ∃ res aConv, Ks.automorphismFused .subNegate big128 (Ks.zeroBuf N (rout + 1) key.size) bout sout rout a key = .ok res ∧
+      Ks.convIn a key = .ok aConv ∧ GWF N res ∧ res.base2k = bout ∧ res.size = sout ∧ res.rank = rout ∧
+      ∃ (E1 E3 : Poly) (Q : Ks.R N), E1.length = N ∧ E3.length = N ∧
+        normInf E1 ≤ (1 + snorm (min a.rank sk.length) sk) * C02.normTol (key.base2k * convSize a key) (a.base2k * a.size) ∧
+        normInf E3 ≤ (1 + snorm (min rout sk.length) sk) * C02.normTol (bout * sout) (key.base2k * key.mat.size) ∧
+        (2 : Ks.R N) ^ (a.base2k * a.size + key.base2k * key.mat.size) * Ks.ι N (valP bout N (phase sk res))
+          = ((sgA .subNegate : ℤ) : Ks.R N) *
+              ((2 : Ks.R N) ^ (bout * sout + key.base2k * key.mat.size) * Ks.ι N (σ key.p (valP a.base2k N (phase sk a)))
+                + Ks.ι N (σ key.p (ksErr (2 ^ (bout * sout + key.base2k * (key.mat.size - convSize a key)))
+                    (2 ^ (a.base2k * a.size + bout * sout)) 0 E1 (Ks.errL N key.base2k (aDftOf aConv) key EL)
+                    (Ks.dropL N key.base2k (sk.map (σ gInv)) (aDftOf aConv) key) (zeroP N))))
+            + ((sgB .subNegate : ℤ) : Ks.R N) *
+              ((2 : Ks.R N) ^ (bout * sout + key.base2k * key.mat.size) * Ks.ι N (valP a.base2k N (phase sk a))
+                + Ks.ι N (polyScale (2 ^ (bout * sout + key.base2k * (key.mat.size - convSize a key))) E1))
+            + Ks.ι N (polyScale (2 ^ (a.base2k * a.size)) E3)
+            + (2 : Ks.R N) ^ (a.base2k * a.size + bout * sout + key.base2k * key.mat.size) * Q ∧
+        normInf (σ key.p (ksErr (2 ^ (bout * sout + key.base2k * (key.mat.size - convSize a key)))
+                    (2 ^ (a.base2k * a.size + bout * sout)) 0 E1 (Ks.errL N key.base2k (aDftOf aConv) key EL)
+                    (Ks.dropL N key.base2k (sk.map (σ gInv)) (aDftOf aConv) key) (zeroP N)))
+          ≤ 2 ^ (bout * sout + key.base2k * (key.mat.size - convSize a key)) *
+              ((1 + snorm (min a.rank sk.length) sk) * C02.normTol (key.base2k * convSize a key) (a.base2k * a.size))
+            + 2 ^ (a.base2k * a.size + bout * sout) * gadgetBound N key.base2k (aDftOf aConv) key EL
+            + 2 ^ (a.base2k * a.size + bout * sout) * dropBound N key.base2k (sk.map (σ gInv)) (aDftOf aConv) key :=
+  KsDec.glwe_automorphism_sub_negate_decrypts big128 N bout sout rout a key sk gInv EL KL Hin Hp hN hg hsk hinv ha hrank hrout hra hc0 hD hM hS hbi1 hbi hbk1 hbk hbo1 hbo hIn0 hIn hInB hHp0 hAcc hprod hs hEL hKL hkey hcov1 hcov2
+
+/-- the in-place forms -/
+theorem glwe_automorphism_fused_assign_decrypts (f : Ks.Fused) (big128 : Bool) (N : Nat) (a : Ks.Ct) (key : Ks.Key)
+    (sk : List Poly) (gInv : Int) (EL KL : ℕ → ℕ → Poly) (Hin Hp : Int)
+    (hN : 0 < N) (hg : GalOk key.p N) (hsk : Ks.AllLen N sk) (hinv : ∀ s ∈ sk, σ key.p (σ gInv s) = s)
+    (ha : GWF N a) (hrank : a.rank = key.rankIn) (hrout : a.rank = key.rankOut) (hc0 : 0 < key.mat.colsOut)
+    (hD : 1 ≤ key.dsize) (hM : ∀ j q, (key.mat.entry j q).length = N) (hS : key.mat.rows * key.dsize ≤ key.mat.size)
+    (hbi1 : 1 ≤ a.base2k) (hbi : a.base2k ≤ 62) (hbk1 : 1 ≤ key.base2k) (hbk : key.base2k ≤ 62)
+    (hIn0 : 0 ≤ Hin) (hIn : Hin + 8 ≤ 2 ^ 62) (hInB : ∀ c ∈ a.cols, ∀ l ∈ c, ∀ x ∈ l, |x| ≤ Hin)
+    (hHp0 : 0 ≤ Hp) (hAcc : Hp + 2 * (Hin + 2 ^ key.base2k) + 8 ≤ 2 ^ (bitsOf big128 - 2))
+    (hprod : ∀ aConv, Ks.convIn a key = .ok aConv → ∀ i, i < a.rank + 1 → ∀ l ∈ (prodOf a.rank aConv key).act i, ∀ x ∈ l, |x| ≤ Hp)
+    (hs : key.mat.colsIn ≤ sk.length)
+    (hEL : ∀ i r, (EL i r).length = N) (hKL : ∀ i r, (KL i r).length = N)
+    (hkey : ∀ i, i < key.mat.colsIn → ∀ r, r < key.mat.rows →
+      Gadget.val (Ks.radix N key.base2k) key.mat.size (Ks.keyPhase N (sk.map (σ gInv)) key.mat i r) =
+        Ks.ι N (sk.getD i []) * Ks.radix N key.base2k ^ (key.mat.size - (r + 1) * key.dsize) + Ks.ι N (EL i r)
+          + Ks.radix N key.base2k ^ key.mat.size * Ks.ι N (KL i r))
+    (hcov1 : convSize a key ≤ key.mat.size) (hcov2 : convSize a key ≤ key.mat.rows * key.dsize) :
+    ∃ res aConv, Ks.automorphismFused f big128 (Ks.zeroBuf N (a.rank + 1) key.size) a.base2k a.size a.rank a key = .ok res ∧
+      Ks.convIn a key = .ok aConv ∧ GWF N res ∧ res.base2k = a.base2k ∧ res.size = a.size ∧ res.rank = a.rank ∧
+      ∃ (E1 E3 : Poly) (Q : Ks.R N), E1.length = N ∧ E3.length = N ∧
+        normInf E1 ≤ (1 + snorm (min a.rank sk.length) sk) * C02.normTol (key.base2k * convSize a key) (a.base2k * a.size) ∧
+        normInf E3 ≤ (1 + snorm (min a.rank sk.length) sk) * C02.normTol (a.base2k * a.size) (key.base2k * key.mat.size) ∧
+        (2 : Ks.R N) ^ (a.base2k * a.size + key.base2k * key.mat.size) * Ks.ι N (valP a.base2k N (phase sk res))
+          = (sgA f : Ks.R N) *
+              ((2 : Ks.R N) ^ (a.base2k * a.size + key.base2k * key.mat.size) * Ks.ι N (σ key.p (valP a.base2k N (phase sk a)))
+                + Ks.ι N (σ key.p (ksErr (2 ^ (a.base2k * a.size + key.base2k * (key.mat.size - convSize a key)))
+                    (2 ^ (a.base2k * a.size + a.base2k * a.size)) 0 E1 (Ks.errL N key.base2k (aDftOf aConv) key EL)
+                    (Ks.dropL N key.base2k (sk.map (σ gInv)) (aDftOf aConv) key) (zeroP N))))
+            + (sgB f : Ks.R N) *
+              ((2 : Ks.R N) ^ (a.base2k * a.size + key.base2k * key.mat.size) * Ks.ι N (valP a.base2k N (phase sk a))
+                + Ks.ι N (polyScale (2 ^ (a.base2k * a.size + key.base2k * (key.mat.size - convSize a key))) E1))
+            + Ks.ι N (polyScale (2 ^ (a.base2k * a.size)) E3)
+            + (2 : Ks.R N) ^ (a.base2k * a.size + a.base2k * a.size + key.base2k * key.mat.size) * Q ∧
+        normInf (σ key.p (ksErr (2 ^ (a.base2k * a.size + key.base2k * (key.mat.size - convSize a key)))
+                    (2 ^ (a.base2k * a.size + a.base2k * a.size)) 0 E1 (Ks.errL N key.base2k (aDftOf aConv) key EL)
+                    (Ks.dropL N key.base2k (sk.map (σ gInv)) (aDftOf aConv) key) (zeroP N)))
+          ≤ 2 ^ (a.base2k * a.size + key.base2k * (key.mat.size - convSize a key)) *
+              ((1 + snorm (min a.rank sk.length) sk) * C02.normTol (key.base2k * convSize a key) (a.base2k * a.size))
+            + 2 ^ (a.base2k * a.size + a.base2k * a.size) * gadgetBound N key.base2k (aDftOf aConv) key EL
+            + 2 ^ (a.base2k * a.size + a.base2k * a.size) * dropBound N key.base2k (sk.map (σ gInv)) (aDftOf aConv) key :=
+  KsDec.glwe_automorphism_fused_assign_decrypts f big128 N a key sk gInv EL KL Hin Hp hN hg hsk hinv ha hrank hrout hc0 hD hM hS hbi1 hbi hbk1 hbk hIn0 hIn hInB hHp0 hAcc hprod hs hEL hKL hkey hcov1 hcov2
+
+
+/-- closed instances with every hypothesis discharged (`N = 1`, `g = 1`; `N = 2`, `g = 3 ≡ −1`, all three fused forms, both accumulator
+widths): the `example`s at the end of `Lemmas/AutoDecrypt.lean`; here the executed calls on the `N = 1` instance -/
+example : ∃ res, Ks.automorphism false 3 2 0 KsDec.exCt Ks.AccumExample.exKey3 = .ok res := ⟨_, rfl⟩
+end AutoDecryptSec
+
+section LweDecryptSec
+open KsDec Hal Core Core.Ops C02L AutoMul LweIdx
+variable {M : Type*} [AddCommGroup M]
+
+/-- `glwe_keyswitch_decrypts` read coefficient by coefficient (integers: `2^(…)·val_out[t] = 2^(…)·val_in[t] + e + 2^(…)·q`, `|e| ≤ ksBound`) -/
+theorem glwe_keyswitch_decrypts_coeff (big128 : Bool) (N bout sout rout : Nat) (a : Ks.Ct) (key : Ks.Key) (sIn skOut : List Poly)
+    (EL KL : ℕ → ℕ → Poly) (Hin Hp : Int) (h : KsSide big128 N bout sout rout a key sIn skOut EL KL Hin Hp)
+    (ha : GWF N a) (hInB : ∀ c ∈ a.cols, ∀ l ∈ c, ∀ x ∈ l, |x| ≤ Hin) :
+    ∃ res aConv, Ks.keyswitch big128 bout sout rout a key = .ok res ∧ Ks.convIn a key = .ok aConv ∧
+      GWF N res ∧ res.base2k = bout ∧ res.size = sout ∧ res.rank = rout ∧
+      ∀ t, t < N → ∃ e q : Int,
+        2 ^ (a.base2k * a.size + key.base2k * key.mat.size) * valCoeff bout (phase skOut res) t
+          = 2 ^ (bout * sout + key.base2k * key.mat.size) * valCoeff a.base2k (phase sIn a) t + e
+            + 2 ^ (a.base2k * a.size + bout * sout + key.base2k * key.mat.size) * q ∧
+        |e| ≤ ksBound N bout sout rout a aConv key sIn skOut EL :=
+  KsDec.glwe_keyswitch_decrypts_coeff big128 N bout sout rout a key sIn skOut EL KL Hin Hp h ha hInB
+
+/-- **`lwe_keyswitch_decrypts`** — END TO END: the LWE phase value of the result under `sOut` is the LWE phase value of the input under `sIn` plus `e`, `|e| ≤ ksBound` (embedding `[b,0…]`,`[a…,0…]` under the `σ_{−1}` secrets, GLWE key switch, sample extraction) -/
+theorem lwe_keyswitch_decrypts (big128 : Bool) (n bout sout nOut : Nat) (a : Ks.Lwe) (key : Ks.Key) (sIn sOut : Poly)
+    (EL KL : ℕ → ℕ → Poly) (Hin Hp : Int)
+    (h : KsSide big128 n bout sout 1 (lweEmb n a) key (embSk n sIn) (embSk n sOut) EL KL Hin Hp)
+    (hInB : ∀ limb ∈ a.data, ∀ x ∈ limb, |x| ≤ Hin)
+    (hnIn : a.nLwe ≤ n) (hnOut : nOut ≤ n) (hsIn : sIn.length = a.nLwe) (hsOut : sOut.length = nOut) :
+    ∃ res aConv, Ks.lweKeyswitch big128 n bout sout nOut a key = .ok res ∧ Ks.convIn (lweEmb n a) key = .ok aConv ∧
+      res.base2k = bout ∧ res.nLwe = nOut ∧ res.data.length = sout ∧
+      ∃ e q : Int,
+        2 ^ (a.base2k * a.data.length + key.base2k * key.mat.size) * lwePhaseVal bout res sOut
+          = 2 ^ (bout * sout + key.base2k * key.mat.size) * lwePhaseVal a.base2k a sIn + e
+            + 2 ^ (a.base2k * a.data.length + bout * sout + key.base2k * key.mat.size) * q ∧
+        |e| ≤ ksBound n bout sout 1 (lweEmb n a) aConv key (embSk n sIn) (embSk n sOut) EL :=
+  KsDec.lwe_keyswitch_decrypts big128 n bout sout nOut a key sIn sOut EL KL Hin Hp h hInB hnIn hnOut hsIn hsOut
+
+/-- **`glwe_to_lwe_decrypts`** (`lwe_from_glwe`, every extraction index): LWE phase of the result = coefficient `idx` of the GLWE phase of the input + `e` -/
+theorem glwe_to_lwe_decrypts (big128 : Bool) (N bout sout nOut : Nat) (a : Ks.Ct) (idx : Nat) (key : Ks.Key) (sIn : List Poly) (sOut : Poly)
+    (EL KL : ℕ → ℕ → Poly) (Hin Hp : Int)
+    (h : KsSide big128 N bout sout 1 (rotIn a idx) key sIn (embSk N sOut) EL KL Hin Hp)
+    (ha : GWF N a) (hInB : ∀ c ∈ a.cols, ∀ l ∈ c, ∀ x ∈ l, |x| ≤ Hin) (hidx : idx < N)
+    (hnOut : nOut ≤ N) (hsOut : sOut.length = nOut) :
+    ∃ res aConv, Ks.lweFromGlwe big128 bout sout nOut a idx key = .ok res ∧ Ks.convIn (rotIn a idx) key = .ok aConv ∧
+      res.base2k = bout ∧ res.nLwe = nOut ∧ res.data.length = sout ∧
+      ∃ e q : Int,
+        2 ^ (a.base2k * a.size + key.base2k * key.mat.size) * lwePhaseVal bout res sOut
+          = 2 ^ (bout * sout + key.base2k * key.mat.size) * valCoeff a.base2k (phase sIn a) idx + e
+            + 2 ^ (a.base2k * a.size + bout * sout + key.base2k * key.mat.size) * q ∧
+        |e| ≤ ksBound N bout sout 1 (rotIn a idx) aConv key sIn (embSk N sOut) EL :=
+  KsDec.glwe_to_lwe_decrypts big128 N bout sout nOut a idx key sIn sOut EL KL Hin Hp h ha hInB hidx hnOut hsOut
+
+/-- **`lwe_to_glwe_decrypts`** (`glwe_from_lwe`, same and different radices): coefficient 0 of the GLWE phase of the result = LWE phase of the input + `e` -/
+theorem lwe_to_glwe_decrypts (big128 : Bool) (n bout sout rout : Nat) (a : Ks.Lwe) (key : Ks.Key) (sIn : Poly) (skOut : List Poly)
+    (EL KL : ℕ → ℕ → Poly) (Hin Hp : Int)
+    (h : KsSide big128 n bout sout rout (lweEmb n a) key (embSk n sIn) skOut EL KL Hin Hp)
+    (hInB : ∀ limb ∈ a.data, ∀ x ∈ limb, |x| ≤ Hin) (hnIn : a.nLwe ≤ n) (hsIn : sIn.length = a.nLwe) :
+    ∃ res aConv, Ks.glweFromLwe big128 n bout sout rout a key = .ok res ∧ Ks.convIn (lweEmb n a) key = .ok aConv ∧
+      GWF n res ∧ res.base2k = bout ∧ res.size = sout ∧ res.rank = rout ∧
+      ∃ e q : Int,
+        2 ^ (a.base2k * a.data.length + key.base2k * key.mat.size) * valCoeff bout (phase skOut res) 0
+          = 2 ^ (bout * sout + key.base2k * key.mat.size) * lwePhaseVal a.base2k a sIn + e
+            + 2 ^ (a.base2k * a.data.length + bout * sout + key.base2k * key.mat.size) * q ∧
+        |e| ≤ ksBound n bout sout rout (lweEmb n a) aConv key (embSk n sIn) skOut EL :=
+  KsDec.lwe_to_glwe_decrypts big128 n bout sout rout a key sIn skOut EL KL Hin Hp h hInB hnIn hsIn
+
+
+/-- closed instances with every hypothesis discharged (`N = 2` key `KsDec.exKey11`, `idx = 1`; `N = 1` same- and cross-radix): the `example`s at
+the end of `Lemmas/LweDecrypt.lean`; here: the value-level index map on a concrete LWE sample -/
+example : KsDec.lwePhaseVal 4 { base2k := 4, nLwe := 2, data := [[7, 5, 11]] } [2, -3] = 7 + (5 * 2 + 11 * (-3)) := by decide
+end LweDecryptSec
+
+section NoisyTraceSec
+open Hal Core Ks Pack
+variable {M : Type*} [AddCommGroup M]
+
+/-- **`glwe_trace_decrypts`** — the executed trace loop with noise: under the per-level noisy contracts (`glwe_rsh(1)` halves up to `≤ Br`; `glwe_automorphism_add_assign` of level `i` gives `φ + σ_i φ` up to `≤ Ba i` — `glwe_automorphism_add_decrypts`), the result's phase is the partial trace `traceAbs levels φ` plus an error of size `≤ Σ_{i∈levels}(2·Br + Ba i)` -/
+theorem glwe_trace_decrypts (c : Pack.Contract M) (ν : M → Int) (hν : SizeFn c ν) (ph : Ct → M) (big128 : Bool) (keys : List Key)
+    (Br : Int) (Ba : Nat → Int)
+    (hrsh : ∀ x y, glweRsh 1 x = .ok y → ∃ e, ph y = c.half (ph x) + e ∧ ν e ≤ Br)
+    (hauto : ∀ i x key p y, traceGalois x.n i = .ok p → keys.find? (fun k => k.p == p) = some key →
+      automorphismFused .add big128 (zeroBuf x.n (x.rank + 1) key.size) x.base2k x.size x.rank x key = .ok y →
+      (y.n = x.n ∧ ∃ e, ph y = ph x + c.sig i (ph x) + e ∧ ν e ≤ Ba i))
+    (hn : ∀ x y, glweRsh 1 x = .ok y → y.n = x.n)
+    (levels : List Nat) (x r : Ct) (h : traceLoop big128 keys x levels = .ok r) :
+    ∃ err, ph r = traceAbs c levels (ph x) + err ∧ ν err ≤ traceErrBound Br Ba levels :=
+  Ks.traceLoop_noisy c ν hν ph big128 keys Br Ba hrsh hauto hn levels x r h
+
+
+/-- the size-function contract is satisfiable (degenerate witness; the intended `ν` is `‖·‖_∞` of the coefficient list) -/
+example : Ks.SizeFn Pack.model (fun _ => (0 : Int)) := ⟨by intros; simp, by intros; simp, by intros; simp, by intros; simp, rfl⟩
+end NoisyTraceSec
 
 end C03
